@@ -1,5 +1,7 @@
 package checks
 
+import "sort"
+
 // CSS Color Module Level 4 named colours (148), transcribed from the specification.
 var cssNamedColors = map[string]string{
 	"aliceblue": "f0f8ff", "antiquewhite": "faebd7", "aqua": "00ffff", "aquamarine": "7fffd4", "azure": "f0ffff",
@@ -70,3 +72,13 @@ func cssHexToRGBA(h string) (r, g, b, a int, ok bool) {
 	}
 	return 0, 0, 0, 0, false
 }
+
+// cssColorNames: the keys of cssNamedColors in a fixed order (generators index into it).
+var cssColorNames = func() []string {
+	var ns []string
+	for n := range cssNamedColors {
+		ns = append(ns, n)
+	}
+	sort.Strings(ns)
+	return ns
+}()
